@@ -72,10 +72,12 @@ def check_ess(w, kind):
         with np.errstate(all="ignore"):
             f = float(compute_ess(lw))
             f2 = float(compute_ess(lw + 123.456))
+            f3 = float(compute_ess(lw - np.max(lw) + 5000.0))
+            f4 = float(compute_ess(lw - np.max(lw) - 5000.0))
         if not (1.0 / n - 1e-12 <= f <= 1 + 1e-9) or abs(f * n - ref) > 1e-7 * ref:
             bad.append(("compute-ess", f"compute_ess={f!r} (x N = {f * n!r}) reference ESS {ref!r}"))
-        if abs(f2 - f) > 1e-9:
-            bad.append(("compute-ess-shift", f"compute_ess not invariant to log-weight shift: {f!r} vs {f2!r}"))
+        if abs(f2 - f) > 1e-9 or not (abs(f3 - f) <= 1e-9) or not (abs(f4 - f) <= 1e-9):
+            bad.append(("compute-ess-shift", f"compute_ess not invariant to log-weight shift: {f!r} vs {f2!r} (+123), {f3!r} (max=+5000), {f4!r} (max=-5000)"))
     return bad
 
 
